@@ -331,6 +331,10 @@ prop("C07",
 # Every property also runs its monitor on a stock release build (debug assertions and overflow
 # checks off): a side effect wrapped in debug_assert!, or an arithmetic path that only exists with
 # assertions off, is invisible to the 'fast' profile (release + debug-assertions) of the main stage.
+# The sample-arithmetic properties (and the custom-width integer types) also run on a release build with overflow checks ON and debug
+# assertions OFF (profile `relchk`).
+for _pid in ("C01", "C02", "C03", "C15"):
+    PROPS[_pid]["stages"].append({"name": "release_overflow_checks", "build": "relchk", "bin": PROPS[_pid]["stages"][0]["bin"]})
 for _pid, _p in PROPS.items():
     if not any(s["build"] == "release" for s in _p["stages"]):
         _main = [s for s in _p["stages"] if s["name"] == "main"][0]
